@@ -115,6 +115,21 @@ theorem crun_inv (c : Conn) (ops : List COp) (hi : CInv c) (hl : clegalRun c ops
     simp only [clegalRun, Bool.and_eq_true] at hl
     exact ih _ (cstep_inv c o hi hl.1) hl.2
 
+/-- the per-stream invariant gives the restored window whenever nothing delivered is outstanding -/
+theorem finv_restored (st : State) (hi : FInv false st) (h0 : st.g.outstanding = 0) : st.g.restored = true := by
+  obtain ⟨ha, hc, hled, hpd, hdl, hpu, hlm, hdm, hsm, hst, hnn, hinf⟩ := hi
+  have hpd0 : st.f.pd = 0 := by omega
+  unfold Ghost.restored
+  simp only [Bool.and_eq_true, Bool.or_eq_true, decide_eq_true_eq]
+  rw [hc, hled, hpd0]
+  refine ⟨?_, ?_⟩
+  · rcases hpu with h | h
+    · left; omega
+    · right; omega
+  · by_cases hz : st.f.limit = 0
+    · exact Or.inl hz
+    · right; rcases hpu with h | h <;> omega
+
 theorem crun_append (c : Conn) (a b : List COp) : crun c (a ++ b) = crun (crun c a) b := by
   induction a generalizing c with
   | nil => rfl
